@@ -221,15 +221,20 @@ theorem classic_not_mem (b : Nat) : ¬ IMod.Classic ∈ fromBits b := by
 
 theorem nsh_intermode (b : Nat) (lz : Bool) :
     (Rep.intermode (fromBits b) : Rep Rat).noSliderHeadAcc lz = !lz := by
-  simp [Rep.noSliderHeadAcc, classic_not_mem]
+  simp [Rep.noSliderHeadAcc, nshaIntermodeMod, classic_not_mem]
 
 theorem nsh_lazer (b : Nat) (mode : Mode) (lz : Bool) :
     (Rep.lazer mode (withMode mode (fromBits b)) : Rep Rat).noSliderHeadAcc lz = !lz := by
-  have : (withMode (R := Rat) mode (fromBits b)).any (fun m => m.kind == IMod.Classic) = false := by
-    rw [any_withMode Rat mode _ _ (by decide)]
-    have := classic_not_mem b
-    simp [this]
-  simp [Rep.noSliderHeadAcc, this]
+  have hnone : (withMode (R := Rat) mode (fromBits b)).findSome?
+      (fun m => (armFor nshaLazerArms mode m.kind).map (fun d => m.nsha.getD d)) = none := by
+    apply findSome?_eq_none_of
+    intro a ha
+    unfold withMode at ha
+    obtain ⟨k, hk, rfl⟩ := List.mem_map.mp ha
+    have hk2 := ((mem_imIter _ _).mp (List.mem_filter.mp hk).1).2
+    have hne : k ≠ .Classic := fun e => classic_not_mem b (e ▸ hk2)
+    cases k <;> first | (exact absurd rfl hne) | rfl
+  simp [Rep.noSliderHeadAcc, hnone]
 
 theorem reflection_legacy (b : Nat) :
     (Rep.legacy (legacyFromBits b) : Rep Rat).reflection =
@@ -256,7 +261,8 @@ theorem reflection_lazer (b : Nat) (mode : Mode) :
     rw [mem_fromBits]; simp [bitOf, IMod.idx, adjBit_plain b 30 (by omega) (by decide)]
   simp only [Rep.reflection, withMode, imIter, List.findSome?_map, findSome?_filter', Function.comp_def]
   cases mode <;> by_cases h4 : b.testBit 4 = true <;> by_cases h30 : b.testBit 30 = true <;>
-    simp [orderAll, List.findSome?_cons, avail, hhr, hmr, h4, h30]
+    simp [orderAll, List.findSome?_cons, avail, hhr, hmr, h4, h30, armFor, reflLazerArms, ReflVal.eval,
+      reflLazerElse]
 
 /-- key count by bits, in the order of the `mania_keys` chains -/
 def keysOf (b : Nat) : Option Rat :=
